@@ -207,6 +207,11 @@ def _split(op, tok_mode, l_none, r_none):
                                              c['r_out_prefix'], True, with_score, assumed=not c.proving):
                     fs.append((lab + ('-with-score' if with_score else '-no-score'),
                                z3.Implies(sc if with_score else z3.Not(sc), f)))
+            # the header as a term (a function of the arguments only: equal for every chunk of a parallel run)
+            oh = S.out_header(c['l_key_attr'], c['r_key_attr'], None if lo is None else lo.t, None if ro is None else ro.t,
+                              c['l_out_prefix'], c['r_out_prefix'])
+            hd = L_cons(LV, strconst('_id'), oh)
+            fs.append(('header-term', cols.t == z3.If(sc, L_append(LV, hd, strconst('_sim_score')), hd)))
             return fs
     return Split()
 
